@@ -189,7 +189,7 @@ func evalC05Cells(c *Ctx, gc GCase) string {
 		return ""
 	}
 	if err != nil {
-		return fmt.Sprintf("yaccgo's grammar tables are malformed: %v\n%s", err, gc.Text)
+		return adaptProblem(c, err, gc.Text)
 	}
 	l := b.A.L
 	if !l.NeedPacked {
